@@ -202,3 +202,66 @@ def check_deleg(crate, rep, cfg):
         rep.add("C17.DELEG", "C17.DELEG:%s" % path, ok, b.where(0), "%s is the std operation(s) %s applied to the input, no loop of its own%s" % (
             path.rsplit("::", 1)[-1], sorted(want), (" (constants %s)" % list(consts)) if consts else "") + ("" if ok else " — VIOLATED (review): " + why))
     rep.floor("C17.DELEG", "string filters reviewed as std delegations [%s]" % cfg, n, 8)
+    check_seq_deleg(crate, rep, cfg)
+    check_type_tests(crate, rep, cfg)
+
+
+SEQ_DELEG = {"filters::first": {"first"}, "filters::last": {"last"}, "filters::nth": {"get"}}
+
+
+def check_seq_deleg(crate, rep, cfg):
+    """first / last / nth are slice::first / last / get(n) with `n` the unsigned argument as given — so they agree with indexing, with
+    `reverse`, and answer none for every position that does not exist."""
+    for path, want in sorted(SEQ_DELEG.items()):
+        b = crate.one(path)
+        rep.analysed(b)
+        work = {callee_def(t).rsplit("::", 1)[-1] for bb, t in b.calls() if "<impl [T]>" in callee_def(t) or "Vec::<T" in callee_def(t)}
+        other = {callee_def(t).rsplit("::", 1)[-1] for bb, t in b.calls()} - work - PLUMBING - {"cloned", "unwrap_or", "none", "unwrap_or_else"}
+        work |= other
+        arith = [1 for bb, idx, st in b.stmts() if idx != "t" and st.get("k") == "assign" and st["rv"]["k"] in ("bin", "un", "cast")]
+        ok = work == want and not arith and not b.natural_loops()
+        rep.add("C17.DELEG", "C17.DELEG:%s" % path, ok, b.where(0), "%s is slice::%s on the input, no index arithmetic of its own" % (path.rsplit("::", 1)[-1], sorted(want)[0])
+                + ("" if ok else " — VIOLATED (review): calls %s%s" % (sorted(work), ", arithmetic/casts on the index" if arith else "")))
+
+
+TYPE_TESTS = ["is_string", "is_number", "is_map", "is_bool", "is_array", "is_none", "is_undefined", "is_defined", "is_iterable", "is_integer", "is_float"]
+KIND_ONLY = {"is_string", "is_number", "is_map", "is_bool", "is_array", "is_none", "is_undefined", "is_bytes", "is_f64", "kind"}
+
+
+def kind_predicate_method(crate, name):
+    """a crate-local `Value` method returning bool that itself only asks kind predicates / matches on the kind (e.g. can_be_iterated_on)"""
+    b = crate.bodies.get("value::Value::" + name)
+    if b is None or b.local_ty(0) != "bool":
+        return False
+    inner = {callee_def(t).rsplit("::", 1)[-1] for bb, t in b.calls()}
+    if not inner <= KIND_ONLY:
+        return False
+    # no payload of the value is read: only discriminants
+    for bb, idx, st in b.stmts():
+        if idx != "t" and st.get("k") == "assign" and st["rv"]["k"] == "use" and st["rv"]["op"]["k"] in ("copy", "move"):
+            if any(isinstance(p, dict) and "dc" in p for p in st["rv"]["op"]["pl"]["p"]):
+                return False
+    return True
+
+
+def check_type_tests(crate, rep, cfg):
+    """"Type tests partition values consistently": each built-in type test asks the value for its KIND only (Value::is_* / kind()); a
+    converting accessor (`as_i128`, `as_f64`, `as_str` ..) answers None for some members of the kind, or Some for non-members."""
+    n = 0
+    for name in TYPE_TESTS:
+        c = [b for p_, b in crate.bodies.items() if p_ == "tests::" + name]
+        if not c:
+            continue
+        b = c[0]
+        n += 1
+        called = {callee_def(t).rsplit("::", 1)[-1] for bb, t in b.calls() if "value::Value" in callee_def(t)}
+        conv = sorted(c_ for c_ in called - KIND_ONLY if not kind_predicate_method(crate, c_))
+        ok = bool(called) and not conv
+        rep.add("C17.TYPETEST", "C17.TYPETEST:%s:by-kind-only" % name, ok, b.where(0), "`%s` is decided by kind predicates only (%s)" % (name[3:], sorted(called))
+                + ("" if ok else " — VIOLATED: %s" % (conv or "no kind predicate called")))
+    rep.floor("C17.TYPETEST", "type tests reviewed [%s]" % cfg, n, 9)
+    ii = [b for p_, b in crate.bodies.items() if p_ == "tests::is_integer"]
+    if ii:
+        called = {callee_def(t).rsplit("::", 1)[-1] for bb, t in ii[0].calls() if "value::Value" in callee_def(t)}
+        ok = called == {"is_number", "is_f64"}
+        rep.add("C17.TYPETEST", "C17.TYPETEST:is_integer:number-and-not-float", ok, ii[0].where(0), "`integer` is `number and not float` (so integer xor float iff number)" + ("" if ok else " — VIOLATED: %s" % sorted(called)))
